@@ -29,20 +29,29 @@
                                 (`table_agrees`) - whatever USE switches, re-USEs, failed USEs, ticks,
                                 clean and unclean restarts happened in between.
      C17_never_fails            along such a run no event fails or panics (recovery included).
+     C17_isolation_all_histories / C17_never_fails_all_histories: the same WITHOUT hypothesis (i)
+                                below (`sess_hyps2`): since the repair of findings F11a-c (every row /
+                                catalog row is checked before the first change) a failing statement
+                                returns the store it was given - derived from the refinement invariant
+                                in Proofs/FailsEarly.v (stmt_err_unchanged), used by
+                                SessionStore.DbInv_exec2. Failing statements of ANY kind may occur
+                                anywhere in the run.
    Hypotheses of 4 (`sess_hyps`, a boolean evaluated along the run; only DDL/DML statements issued
-   while a database is selected are constrained, through SessionStore.stmt_hyp on the selected cache):
-     (i)   a FAILING statement fails before its first page change (Atomic.fails_early) - exactly the
-           complement of the recorded findings F11a-c, as in C01full / C14 / C02's (H1);
+   while a database is selected are constrained, through SessionStore.stmt_hyp on the selected cache;
+   `sess_hyps2` / SessionStore.stmt_hyp2 = (ii)-(iv) only):
+     (i)   [C17_isolation / C17_never_fails only; no longer needed] a FAILING statement fails before
+           its first page change (Atomic.fails_early), as in C01full / C14 / C02's (H1);
      (ii)  RefineMain.stmt_ok: literals are Go values (int64, strings < 4 GiB);
      (iii) the data file stays below 2^63 bytes (per statement);
      (iv)  stmt_moves_okb: C02's (H2) (when an INSERT moves its table's root, the catalog row found by
            name is the first one holding the old root), as a boolean.
    C17_hyps_satisfiable: a history with two databases, a duplicate CREATE DATABASE, failed USEs (with
    and without a selected database), USE switches, a re-USE, a tick, a failing statement, an unclean
-   and a clean restart meets them. C17_full_statement drops the hypotheses; it is false for the code
-   as it is (C17_full_refuted: finding F11a inside one database).
-   Not proved: the lax variant (arbitrary failing statements, as C01_refines_partial_lax): the crash
-   invariant needs (i), so it would hold without restarts only. *)
+   and a clean restart meets them. C17_full_statement drops ALL hypotheses ((ii)-(iv) included) and is
+   left as a definition; its former refutation (C17_full_refuted: finding F11a inside one database)
+   is gone - that run now satisfies the agreement (C17_former_witness_agrees), and
+   C17_all_histories_nonvacuous runs failing multi-row INSERT / UPDATE / CREATE TABLE statements
+   across USE switches and an unclean restart. *)
 From Coq Require Import List NArith ZArith String Bool.
 From Mkdb Require Import Model.Engine Model.Session Spec.TableSpec Spec.HistObs Spec.SessionObs
   Proofs.RefineRep Proofs.RefineMain Proofs.SessionStore Proofs.SessionProofs Properties.C01.
@@ -187,19 +196,50 @@ Example C17_restart_nontrivial :
   end.
 Proof. vm_compute. split; [discriminate | reflexivity]. Qed.
 
-(* hypothesis (i) is needed: finding F11a inside one database of a session *)
+(* ---- 6. isolation for ALL runs: hypothesis (i) derived, not assumed ---- *)
+Theorem C17_isolation_all_histories : forall evs s os,
+  sess_hyps2 init_sess evs = true ->
+  sess_run init_sess evs = (Ok s, os) ->
+  let sp := fst (sess_spec_run [] None evs os) in
+  snd (sess_spec_run [] None evs os) = cur s /\
+  map fst (dbs s) = map fst sp /\
+  forall n d, sp_get n sp = Some d ->
+    d = TableSpec.spec_run [] (stmts_while n None evs os) /\
+    exists y, get_db n (dbs s) = Some y /\
+              Rep (logical (cur s) n y) d /\
+              forall t, is_sys t = false -> table_agrees (logical (cur s) n y) d t.
+Proof. exact isolation2. Qed.
+Print Assumptions C17_isolation_all_histories.
+
+Theorem C17_never_fails_all_histories : forall evs fin os,
+  sess_hyps2 init_sess evs = true -> sess_run init_sess evs = (fin, os) -> exists s, fin = Ok s.
+Proof. exact sess_run_total2. Qed.
+Print Assumptions C17_never_fails_all_histories.
+
+Theorem C17_invariant_all_histories : forall s, reachable2 s -> exists sp, SessInv s sp.
+Proof. exact reachable2_inv. Qed.
+Print Assumptions C17_invariant_all_histories.
+
+(* the hypotheses with (i) imply the ones without *)
+Theorem C17_hyps_weaker : forall evs, sess_hyps init_sess evs = true -> sess_hyps2 init_sess evs = true.
+Proof. intros evs. apply sess_hyps_hyps2. Qed.
+Print Assumptions C17_hyps_weaker.
+
+(* the former witness of C17_full_refuted (finding F11a inside one database of a session): the
+   2-row INSERT whose second row is out of range now leaves t empty, as the specification says;
+   the run meets sess_hyps2 and - the statement not failing "early" - still not sess_hyps *)
 Definition evs_F11a : list sevent :=
   [SvStmt (SCreateDatabase "d"); SvStmt (SUse "d");
    SvStmt (SCreateTable "t" [mkColDef "a" STNumeric]);
    SvStmt (SInsert "t" [] [[VInt 1]; [VInt 2147483648]])].
 
-Definition F11a_check : bool :=
+Definition F11a_agrees : bool :=
   match sess_run init_sess evs_F11a with
   | (Ok s, os) =>
       match sp_get "d" (fst (sess_spec_run [] None evs_F11a os)), get_db "d" (dbs s) with
       | Some d, Some y =>
           match st_fetch (logical (cur s) "d" y) "t", spec_table d "t" with
-          | Ok (_ :: _, _), Some (_, []) => true
+          | Ok ([], _), Some (_, []) => true
           | _, _ => false
           end
       | _, _ => false
@@ -207,18 +247,42 @@ Definition F11a_check : bool :=
   | _ => false
   end.
 
-Lemma F11a_check_true : F11a_check = true /\ sess_hyps init_sess evs_F11a = false.
-Proof. vm_compute. split; reflexivity. Qed.
+Example C17_former_witness_agrees :
+  F11a_agrees = true /\ sess_hyps2 init_sess evs_F11a = true /\ sess_hyps init_sess evs_F11a = false.
+Proof. split; [vm_compute; reflexivity|]. split; vm_compute; reflexivity. Qed.
 
-Theorem C17_full_refuted : ~ C17_full_statement.
+(* non-vacuity of the all-histories theorems: two databases; in "shop" a failing multi-row INSERT
+   (second row out of INT range), a failing multi-row UPDATE (the second matching row would exceed
+   400 bytes) and a failing CREATE TABLE (second column VARCHAR(3000000000)), with a USE switch and
+   an unclean restart in between; the tables read as if those statements had never been issued *)
+Fixpoint rep_x (n : nat) : string := match n with O => "" | S k => String "x" (rep_x k) end.
+
+Definition evs_late : list sevent :=
+  [SvStmt (SCreateDatabase "shop"); SvStmt (SCreateDatabase "hr"); SvStmt (SUse "shop");
+   SvStmt (SCreateTable "t" [mkColDef "a" STNumeric; mkColDef "b" (STVarchar 400); mkColDef "c" (STVarchar 400)]);
+   SvStmt (SInsert "t" [] [[VInt 1; VStr "x"; VStr "y"]; [VInt 2; VStr "x"; VStr (rep_x 300)]]);
+   SvStmt (SInsert "t" [] [[VInt 3; VStr "p"; VStr "q"]; [VInt 2147483648; VStr "p"; VStr "q"]]);
+   SvStmt (SUse "hr");
+   SvStmt (SCreateTable "u" [mkColDef "a" STNumeric; mkColDef "b" (STVarchar 3000000000)]);
+   SvStmt (SUse "shop");
+   SvStmt (SUpdate "t" [("b", XLit (VStr (rep_x 200)))] None);
+   SvRestart false;
+   SvStmt (SUse "shop");
+   SvStmt (SUpdate "t" [("b", XLit (VStr "z"))] None)].
+
+Example C17_all_histories_nonvacuous :
+  sess_hyps2 init_sess evs_late = true /\ sess_hyps init_sess evs_late = false /\
+  match sess_run init_sess evs_late with
+  | (Ok s, os) =>
+      os = [Some SOOk; Some SOOk; Some SOOk; Some SOOk; Some SOOk; Some (SOErr (SEStmt EIntRange)); Some SOOk;
+            Some (SOErr (SEStmt EIntRange)); Some SOOk; Some (SOErr (SEStmt ERowTooLarge)); None; Some SOOk;
+            Some SOOk] /\
+      map (fun ny => (fst ny, obs_table (logical (cur s) (fst ny) (snd ny)) "t", obs_table (logical (cur s) (fst ny) (snd ny)) "u")) (dbs s) =
+        [("shop", TRows ["a"; "b"; "c"] [(13, [VInt 1; VStr "z"; VStr "y"]); (14, [VInt 2; VStr "z"; VStr (rep_x 300)])], TFail ETableNotExist);
+         ("hr", TFail ETableNotExist, TFail ETableNotExist)]
+  | _ => False
+  end.
 Proof.
-  intros H. pose proof (proj1 F11a_check_true) as Hc. unfold F11a_check in Hc.
-  destruct (sess_run init_sess evs_F11a) as [[s| |] os] eqn:E; try discriminate Hc.
-  destruct (sp_get "d" (fst (sess_spec_run [] None evs_F11a os))) as [d|] eqn:Ed; try discriminate Hc.
-  destruct (H evs_F11a s os E "d" d Ed) as (y & Ey & Ht). rewrite Ey in Hc.
-  specialize (Ht "t" eq_refl). unfold table_agrees in Ht.
-  destruct (st_fetch (logical (cur s) "d" y) "t") as [[[|r1 idrows] fs]|e|]; try discriminate Hc.
-  destruct (spec_table d "t") as [[cols [|r rows]]|]; try discriminate Hc.
-  destruct Ht as (_ & X & _). discriminate X.
+  split; [vm_compute; reflexivity|]. split; [vm_compute; reflexivity|].
+  vm_compute. split; reflexivity.
 Qed.
-Print Assumptions C17_full_refuted.
